@@ -174,6 +174,7 @@ func c14Body() func(h []dsim.Rec) {
 	}
 
 	cons := &consumer{e: e, pace: dsim.Choose(2)}
+	fastConsumer := cons.pace == 0
 	e.cons = cons
 	d := &driverSet{e: e}
 	served := 0
@@ -404,7 +405,9 @@ func c14Body() func(h []dsim.Rec) {
 				if s.link.keptAlive {
 					count("cov:keep-alive-then-expiry")
 				}
-				if !stalls && ci.closeT > s.link.lastSend+2*idle+time.Second {
+				// (with a slow consumer the reader is held back by undelivered events and arms its
+				// deadline late: the upper bound only applies when the application receives at once)
+				if !stalls && fastConsumer && ci.closeT > s.link.lastSend+2*idle+time.Second {
 					dsim.Failf("idle-expiry", "session %d: silent since t=%v, idle timeout %v, still open until t=%v", i, s.link.lastSend, idle, ci.closeT)
 					return
 				}
